@@ -10,7 +10,9 @@ import (
 
 	geom "github.com/twpayne/go-geom"
 	"github.com/twpayne/go-geom/encoding/ewkb"
+	"github.com/twpayne/go-geom/encoding/ewkbhex"
 	"github.com/twpayne/go-geom/encoding/wkb"
+	"github.com/twpayne/go-geom/encoding/wkbhex"
 	"github.com/twpayne/go-geom/encoding/wkbcommon"
 )
 
@@ -142,6 +144,11 @@ func genC04(r *Rng, e *Emitter, n int) {
 		valid, err := c.marshal(t.build(), bo)
 		if err != nil {
 			valid = []byte{1, 1, 0, 0, 0}
+		} else if r.chance(1, 10) {
+			if mb, ok := r.mixedEndianEncoding(c, t.build(), bo); ok {
+				valid = mb
+				e.tally("mixed-endian-members")
+			}
 		}
 		lims := [4]int{0, -1, -1, -1}
 		if !r.chance(1, 4) {
@@ -332,6 +339,41 @@ func c04Run(e *Emitter, c codec, lims [4]int, b []byte) {
 			}
 		}()
 	}
+	// the same bytes as hex text through the hex wrapper (lower, upper or mixed case): the same outcome;
+	// and text that is not hex — a byte above 0x7f, a stray letter, an odd number of digits — is an error
+	if !panicked && streamDiff == "" && c.name != "wkbnan" {
+		func() {
+			defer func() {
+				if recover() != nil {
+					streamDiff = "(hex-differs (panic))"
+				}
+			}()
+			dec := func(s string) (geom.T, error) { return wkbhex.Decode(s) }
+			if c.name == "ewkb" {
+				dec = ewkbhex.Decode
+			}
+			text := hex.EncodeToString(b)
+			switch len(b) % 3 {
+			case 1:
+				text = strings.ToUpper(text)
+			}
+			g4, err4 := dec(text)
+			switch {
+			case (err4 != nil) != (derr != nil):
+				streamDiff = fmt.Sprintf("(hex-differs (errors %v %v))", derr != nil, err4 != nil)
+			case err4 == nil && raw(g4) != raw(g):
+				streamDiff = "(hex-differs " + raw(g4) + ")"
+			}
+			if streamDiff == "" && len(text) >= 2 {
+				k := (len(b) * 7) % len(text)
+				for _, bad := range []string{text[:k] + "\xef\xbb\xbf" + text[k:], text[:k] + "\x80" + text[k+1:], text[:k] + "g" + text[k+1:], text[:len(text)-1], text[:k] + "\xff\xfe" + text[k:], " " + text} {
+					if _, errb := dec(bad); errb == nil {
+						streamDiff = "(hex-differs (accepted " + hex.EncodeToString([]byte(bad)) + "))"
+					}
+				}
+			}
+		}()
+	}
 	wkbcommon.MaxGeometryElements = [4]int{0, -1, -1, -1}
 	switch {
 	case streamDiff != "":
@@ -468,4 +510,60 @@ func (r *Rng) mixedMemberEncoding(c codec, bo binary.ByteOrder) []byte {
 	bo.PutUint32(cnt, uint32(n))
 	out = append(out, cnt...)
 	return append(out, body...)
+}
+
+// mixedEndianEncoding: the encoding of a multi-geometry or collection in which every member carries
+// a byte-order byte of its own choosing (the standard gives each member one; an encoder that copies
+// members from different sources writes such streams). ok is false for geometries without members.
+func (r *Rng) mixedEndianEncoding(c codec, g geom.T, bo binary.ByteOrder) ([]byte, bool) {
+	var members []geom.T
+	switch x := g.(type) {
+	case *geom.MultiPoint:
+		for i := 0; i < x.NumPoints(); i++ {
+			members = append(members, x.Point(i))
+		}
+	case *geom.MultiLineString:
+		for i := 0; i < x.NumLineStrings(); i++ {
+			members = append(members, x.LineString(i))
+		}
+	case *geom.MultiPolygon:
+		for i := 0; i < x.NumPolygons(); i++ {
+			members = append(members, x.Polygon(i))
+		}
+	case *geom.GeometryCollection:
+		members = append(members, x.Geoms()...)
+	}
+	if len(members) == 0 {
+		return nil, false
+	}
+	full, err := c.marshal(g, bo)
+	if err != nil {
+		return nil, false
+	}
+	same, mixed := 0, []byte{}
+	for _, m := range members {
+		b1, err := c.marshal(m, bo)
+		if err != nil {
+			return nil, false
+		}
+		same += len(b1)
+		other := bo
+		if r.chance(1, 2) {
+			if bo == binary.ByteOrder(wkb.NDR) {
+				other = wkb.XDR
+			} else {
+				other = wkb.NDR
+			}
+		}
+		b2, err := c.marshal(m, other)
+		if err != nil || len(b2) != len(b1) {
+			return nil, false
+		}
+		mixed = append(mixed, b2...)
+	}
+	head := len(full) - same
+	if head < 9 {
+		return nil, false // (members are not written as they are written on their own)
+	}
+	return append(append([]byte{}, full[:head]...), mixed...), true
 }
